@@ -362,15 +362,18 @@ def materialise(world, scratch):
     for n in reversed(nodes):
         p = paths[n["id"]]
         if n["kind"] != "symlink":
-            for k, v in (n.get("xattrs") or {}).items():
-                os.setxattr(p, k, v.encode() if isinstance(v, str) else bytes(v))
-            if n.get("capsraw") is not None:
-                os.setxattr(p, "security.capability", bytes(n["capsraw"]))
             if n.get("uid") is not None or n.get("gid") is not None:
                 os.chown(p, n.get("uid", -1) if n.get("uid") is not None else -1,
                          n.get("gid", -1) if n.get("gid") is not None else -1)
             if n.get("mode") is not None:
                 os.chmod(p, n["mode"])
+            # extended attributes last: chown drops security.capability
+            for k, v in (n.get("xattrs") or {}).items():
+                os.setxattr(p, k, v.encode() if isinstance(v, str) else bytes(v))
+            if n.get("hasx"):
+                os.setxattr(p, "user.test", b"v")
+            if n.get("capsraw"):
+                os.setxattr(p, "security.capability", bytes(n["capsraw"]))
         else:
             if n.get("uid") is not None:
                 os.lchown(p, n["uid"], n.get("gid", n["uid"]))
